@@ -1,1 +1,326 @@
-// harness bodies compiled inside quinn-proto/src/connection/spaces.rs (feature __verif-hooks)
+// Harness bodies for quinn-proto/src/connection/spaces.rs (Dedup, PendingAcks, PacketSpace, PacketNumberFilter).
+
+const V62: u64 = 1 << 62;
+
+/// Abstract set of "already authenticated" packet numbers represented by (window, next):
+/// everything left of the window counts as seen (conservative), `next-1` is the highest seen.
+fn dedup_member(window: u128, next: u64, x: u64) -> bool {
+    if x >= next {
+        return false;
+    }
+    let d = next - 1 - x;
+    if d == 0 {
+        true
+    } else if d > 128 {
+        true
+    } else {
+        window & (1u128 << (d - 1)) != 0
+    }
+}
+
+/// C01.a / C04: one step of `Dedup::insert` from an ARBITRARY (window, next) state.
+/// insert(p) reports "duplicate" exactly when p is in the abstract set; afterwards p is in the
+/// set, every previously seen q is still in the set (monotone: no packet number is ever accepted
+/// twice, in any history of any length), and no unseen q inside the new window becomes "seen"
+/// (a fresh packet is never mistaken for a duplicate because of somebody else's arrival).
+pub fn dedup_insert_step(window: u128, next: u64, p: u64, q: u64) -> u32 {
+    if next > V62 || p >= V62 || q >= V62 {
+        return 0;
+    }
+    let mut d = Dedup { window, next };
+    let was_p = dedup_member(window, next, p);
+    let was_q = dedup_member(window, next, q);
+    let dup = d.insert(p);
+    assert!(dup == was_p);
+    assert!(dedup_member(d.window, d.next, p));
+    if was_q {
+        assert!(dedup_member(d.window, d.next, q));
+    }
+    if !was_q && q != p && (q >= d.next || d.next - 1 - q <= 128) {
+        // precision inside the (new) window
+        assert!(!dedup_member(d.window, d.next, q));
+    }
+    assert!(d.next >= next && d.next <= V62);
+    assert!(d.next == if p >= next { p + 1 } else { next });
+    // second delivery of the same number is always flagged
+    assert!(d.insert(p));
+    let mut f = 1;
+    if dup && p + 1 < next && next - 1 - p <= 128 {
+        f |= 2; // duplicate found through the bitfield
+    }
+    if !dup && p < next {
+        f |= 4; // late (reordered) but fresh packet accepted
+    }
+    if p >= next && p - next >= 128 {
+        f |= 8; // jump beyond the window
+    }
+    if dup && next - 1 - p > 128 {
+        f |= 16; // left of the window: conservatively a duplicate
+    }
+    f
+}
+
+/// `Dedup::new()` is the empty set.
+pub fn dedup_new_is_empty(x: u64) -> u32 {
+    let d = Dedup::new();
+    assert!(!dedup_member(d.window, d.next, x));
+    let mut d = d;
+    assert!(!d.insert(x & (V62 - 1)));
+    1
+}
+
+/// C03.f: `smallest_missing_in_interval` for every (window, next) and every interval the callers
+/// can pass (lower <= upper <= highest): no panic / no shift overflow, and the answer is the
+/// smallest unseen number strictly inside the interval (None iff there is none).
+pub fn dedup_smallest_missing(window: u128, next: u64, lo: u64, hi: u64, y: u64) -> u32 {
+    if next == 0 || next > V62 || lo > hi || hi > next - 1 {
+        return 0;
+    }
+    let d = Dedup { window, next };
+    let r = d.smallest_missing_in_interval(lo, hi);
+    let inside = |x: u64| x > lo && x < hi;
+    match r {
+        Some(x) => {
+            assert!(inside(x));
+            assert!(!dedup_member(window, next, x));
+            if inside(y) && y < x {
+                assert!(dedup_member(window, next, y));
+            }
+            assert!(d.missing_in_interval(lo, hi));
+            1
+        }
+        None => {
+            if inside(y) {
+                assert!(dedup_member(window, next, y));
+            }
+            assert!(!d.missing_in_interval(lo, hi));
+            2
+        }
+    }
+}
+
+fn mk_pending_acks(
+    immediate: bool,
+    eliciting: u64,
+    non_eliciting: u64,
+    threshold: u64,
+    reordering: u64,
+    armed: bool,
+    largest_eliciting: Option<u64>,
+    largest_acked: Option<u64>,
+    t0: Instant,
+) -> PendingAcks {
+    PendingAcks {
+        immediate_ack_required: immediate,
+        ack_eliciting_since_last_ack_sent: eliciting,
+        non_ack_eliciting_since_last_ack_sent: non_eliciting,
+        ack_eliciting_threshold: threshold,
+        reordering_threshold: reordering,
+        earliest_ack_eliciting_since_last_ack_sent: if armed { Some(t0) } else { None },
+        ranges: ArrayRangeSet::default(),
+        largest_packet: None,
+        largest_ack_eliciting_packet: largest_eliciting,
+        largest_acked,
+    }
+}
+
+/// C03.f: `PendingAcks::packet_received` / `is_out_of_order` with ARBITRARY peer-chosen
+/// ack-eliciting and reordering thresholds (any varint), arbitrary counters, and any dedup state
+/// in which the packet has just been recorded: no panic, no overflow; counters step by one;
+/// `immediate_ack_required` is sticky and is raised once the count exceeds the threshold and, for
+/// reordering threshold 1, whenever the packet is older than the previous largest or a gap exists.
+pub fn pending_acks_packet_received(
+    window: u128,
+    next: u64,
+    pn: u64,
+    ack_eliciting: bool,
+    immediate: bool,
+    eliciting: u64,
+    non_eliciting: u64,
+    threshold: u64,
+    reordering: u64,
+    armed: bool,
+    has_le: bool,
+    le: u64,
+    has_la: bool,
+    la: u64,
+) -> u32 {
+    let Some(now) = crate::verif::mk_instant(5, 0) else { return 0 };
+    if next == 0 || next > V62 || pn > next - 1 {
+        return 0;
+    }
+    if eliciting >= V62 || non_eliciting >= V62 || threshold >= V62 || reordering >= V62 {
+        return 0;
+    }
+    // invariants of reachable states: every recorded number was inserted into dedup first;
+    // `largest_acked` is a copy of an earlier `largest_ack_eliciting_packet`
+    if has_le && le > next - 1 {
+        return 0;
+    }
+    if has_la && (!has_le || la > le) {
+        return 0;
+    }
+    let dedup = Dedup { window, next };
+    // the packet being reported has been authenticated (inserted) already
+    if !dedup_member(window, next, pn) {
+        return 0;
+    }
+    let le_o = if has_le { Some(le) } else { None };
+    let la_o = if has_la { Some(la) } else { None };
+    let mut pa = mk_pending_acks(immediate, eliciting, non_eliciting, threshold, reordering, armed, le_o, la_o, now);
+    let arm = pa.packet_received(now, pn, ack_eliciting, &dedup);
+    let mut f = 1;
+    if !ack_eliciting {
+        assert!(!arm);
+        assert!(pa.non_ack_eliciting_since_last_ack_sent == non_eliciting + 1);
+        assert!(pa.ack_eliciting_since_last_ack_sent == eliciting);
+        assert!(pa.immediate_ack_required == immediate);
+        assert!(pa.largest_ack_eliciting_packet == le_o);
+        return f | 2;
+    }
+    assert!(pa.ack_eliciting_since_last_ack_sent == eliciting + 1);
+    assert!(pa.largest_ack_eliciting_packet == Some(if has_le && le > pn { le } else { pn }));
+    if immediate {
+        assert!(pa.immediate_ack_required);
+    }
+    if eliciting + 1 > threshold {
+        assert!(pa.immediate_ack_required);
+        f |= 4;
+    }
+    let prev = if has_le { le } else { 0 };
+    if reordering == 1 && pn < prev {
+        assert!(pa.immediate_ack_required);
+        f |= 8;
+    }
+    if reordering == 0 && !immediate && eliciting + 1 <= threshold {
+        assert!(!pa.immediate_ack_required);
+        f |= 16;
+    }
+    // ranges are empty here, so nothing can be sent yet and the timer must be armed exactly once
+    assert!(arm == !armed);
+    assert!(pa.earliest_ack_eliciting_since_last_ack_sent.is_some());
+    if reordering > 1 && pa.immediate_ack_required && !immediate && eliciting + 1 <= threshold {
+        f |= 32; // ack-frequency-draft reordering rule fired
+    }
+    core::mem::forget(pa);
+    f
+}
+
+/// `acks_sent` / `on_max_ack_delay_timeout` / `maybe_ack_non_eliciting` bookkeeping.
+pub fn pending_acks_bookkeeping(
+    immediate: bool,
+    eliciting: u64,
+    non_eliciting: u64,
+    threshold: u64,
+    has_le: bool,
+    le: u64,
+    which: u8,
+) -> u32 {
+    let Some(now) = crate::verif::mk_instant(5, 0) else { return 0 };
+    let le_o = if has_le { Some(le) } else { None };
+    let mut pa = mk_pending_acks(immediate, eliciting, non_eliciting, threshold, 1, true, le_o, None, now);
+    let f;
+    match which {
+        0 => {
+            pa.acks_sent();
+            assert!(!pa.immediate_ack_required && !pa.can_send());
+            assert!(pa.ack_eliciting_since_last_ack_sent == 0 && pa.non_ack_eliciting_since_last_ack_sent == 0);
+            assert!(pa.earliest_ack_eliciting_since_last_ack_sent.is_none());
+            assert!(pa.largest_acked == le_o);
+            f = 1;
+        }
+        1 => {
+            pa.on_max_ack_delay_timeout();
+            assert!(pa.immediate_ack_required == (eliciting > 0));
+            f = 2;
+        }
+        2 => {
+            pa.maybe_ack_non_eliciting();
+            assert!(pa.immediate_ack_required == (immediate || non_eliciting > 10));
+            f = 4;
+        }
+        _ => return 0,
+    }
+    // an ACK is never sendable while there is nothing to acknowledge
+    assert!(!pa.can_send());
+    core::mem::forget(pa);
+    f
+}
+
+/// C03: `PacketSpace::detect_ecn` with arbitrary peer-reported counters (< 2^62 each, the varint
+/// domain) against arbitrary earlier feedback: no overflow; Ok only if no counter regressed, the
+/// increase covers the newly acked packets and ECT(1) did not move; state updated only on Ok.
+pub fn detect_ecn(newly_acked: u64, e0: u64, e1: u64, ce: u64, f0: u64, f1: u64, fce: u64) -> u32 {
+    let Some(now) = crate::verif::mk_instant(5, 0) else { return 0 };
+    if e0 >= V62 || e1 >= V62 || ce >= V62 || f0 >= V62 || f1 >= V62 || fce >= V62 {
+        return 0;
+    }
+    let mut sp = PacketSpace::new(now);
+    sp.ecn_feedback = frame::EcnCounts { ect0: f0, ect1: f1, ce: fce };
+    let r = sp.detect_ecn(newly_acked, frame::EcnCounts { ect0: e0, ect1: e1, ce });
+    let ok = e0 >= f0 && e1 >= f1 && ce >= fce && (e0 - f0) + (ce - fce) >= newly_acked && e1 == f1;
+    let f;
+    match r {
+        Ok(congestion) => {
+            assert!(ok);
+            assert!(congestion == (ce > fce));
+            assert!(sp.ecn_feedback.ect0 == e0 && sp.ecn_feedback.ect1 == e1 && sp.ecn_feedback.ce == ce);
+            f = if congestion { 2 } else { 1 };
+        }
+        Err(_) => {
+            assert!(!ok);
+            assert!(sp.ecn_feedback.ect0 == f0 && sp.ecn_feedback.ect1 == f1 && sp.ecn_feedback.ce == fce);
+            f = 4;
+        }
+    }
+    core::mem::forget(sp);
+    f
+}
+
+/// C03/C12: `PacketNumberFilter::check_ack` rejects exactly the ACK ranges (Data space) that
+/// contain the most recently skipped packet number; `peek` never returns the skipped number.
+pub fn pn_filter_check_ack(next_skipped: u64, has_prev: bool, prev: u64, exponent: u32, space: u8, lo: u64, hi: u64, next_pn: u64) -> u32 {
+    let Some(now) = crate::verif::mk_instant(5, 0) else { return 0 };
+    let sid = match space {
+        0 => SpaceId::Initial,
+        1 => SpaceId::Handshake,
+        2 => SpaceId::Data,
+        _ => return 0,
+    };
+    if next_pn >= V62 {
+        return 0;
+    }
+    let f = PacketNumberFilter {
+        next_skipped_packet_number: next_skipped,
+        prev_skipped_packet_number: if has_prev { Some(prev) } else { None },
+        exponent,
+    };
+    let r = f.check_ack(sid, lo..=hi);
+    let bad = space == 2 && has_prev && lo <= prev && prev <= hi;
+    assert!(r.is_err() == bad);
+    let mut sp = PacketSpace::new(now);
+    sp.next_packet_number = next_pn;
+    let pk = f.peek(&sp);
+    assert!(pk != next_skipped);
+    assert!(pk == next_pn || pk == next_pn + 1);
+    core::mem::forget(sp);
+    if bad { 2 } else { 1 }
+}
+
+/// `PacketSpace::get_tx_number` hands out strictly increasing numbers and counts key usage.
+pub fn get_tx_number(next_pn: u64, sent_with_keys: u64) -> u32 {
+    let Some(now) = crate::verif::mk_instant(5, 0) else { return 0 };
+    if next_pn >= V62 - 1 || sent_with_keys >= V62 {
+        return 0;
+    }
+    let mut sp = PacketSpace::new(now);
+    sp.next_packet_number = next_pn;
+    sp.sent_with_keys = sent_with_keys;
+    let a = sp.get_tx_number();
+    let b = sp.get_tx_number();
+    assert!(a == next_pn && b == next_pn + 1);
+    assert!(sp.next_packet_number == next_pn + 2);
+    assert!(sp.sent_with_keys == sent_with_keys + 2);
+    core::mem::forget(sp);
+    1
+}
